@@ -1270,8 +1270,19 @@ func main() {
 	} else {
 		acq, rel, call := -1, -1, -1
 		relDeferred := false
+		// a statement that calls a small unexported method counts as containing that method's body
+		// (one level), so that `s.acquire(ctx)` wrapping `s.sem.Acquire(ctx, 1)` is still the acquire
+		expand := func(txt string) string {
+			out := txt
+			for _, m := range regexp.MustCompile(`\bs\.(\w+)\(`).FindAllStringSubmatch(txt, -1) {
+				if cd, _ := findFunc(root, "Server", m[1]); cd != nil && cd.Body != nil && len(cd.Body.List) <= 4 && !ast.IsExported(m[1]) {
+					out += " /* " + m[1] + ": */ " + src(cd.Body)
+				}
+			}
+			return out
+		}
 		for i, s := range fd.Body.List {
-			txt := src(s)
+			txt := expand(src(s))
 			if strings.Contains(txt, "s.sem.Acquire(") && acq < 0 {
 				acq = i
 			}
@@ -1347,46 +1358,86 @@ func main() {
 			fail("server.Loop not found")
 		}
 		var calls []string
-		addBeforeGo, waitBeforeReturn := false, false
-		ast.Inspect(fd.Body, func(n ast.Node) bool {
-			blk, ok := n.(*ast.BlockStmt)
-			if !ok {
-				return true
-			}
-			addIdx, goIdx, waitIdx, retIdx := -1, -1, -1, -1
-			for i, st := range blk.List {
-				txt := src(st)
-				switch {
-				case txt == "wg.Add(1)":
-					addIdx = i
-				case strings.HasPrefix(txt, "go func()") && strings.Contains(txt, "newService()"):
-					goIdx = i
-				case txt == "wg.Wait()":
-					waitIdx = i
-				case strings.HasPrefix(txt, "return err") && waitIdx >= 0:
-					retIdx = i
+		addBeforeGo, waitBeforeReturn := false, true
+		nReturns := 0
+		// (1) wg.Add(1) precedes the go statement in its block; (2) every return of Loop itself (not
+		// of a nested function literal) is directly preceded by wg.Wait() in its block
+		var walkBlocks func(n ast.Node)
+		walkBlocks = func(n ast.Node) {
+			ast.Inspect(n, func(x ast.Node) bool {
+				if _, isLit := x.(*ast.FuncLit); isLit {
+					return false
 				}
-			}
-			if addIdx >= 0 && goIdx > addIdx {
-				addBeforeGo = true
-			}
-			if waitIdx >= 0 && retIdx > waitIdx {
-				waitBeforeReturn = true
-			}
-			return true
-		})
-		want := []string{"newService()", "svc.Assigner()", "ch.Close()", "jrpc2.NewServer(assigner, serverOpts).Start(ch)", "srv.Stop()", "srv.WaitStatus()", "svc.Finish(assigner, stat)"}
-		ast.Inspect(fd.Body, func(n ast.Node) bool {
-			if call, ok := n.(*ast.CallExpr); ok {
-				txt := src(call)
-				for _, w := range want {
-					if txt == w {
-						calls = append(calls, leanStr(w))
+				var list []ast.Stmt
+				switch b := x.(type) {
+				case *ast.BlockStmt:
+					list = b.List
+				case *ast.CaseClause:
+					list = b.Body
+				default:
+					return true
+				}
+				addIdx := -1
+				for i, st := range list {
+					txt := src(st)
+					if txt == "wg.Add(1)" {
+						addIdx = i
+					}
+					if _, isGo := st.(*ast.GoStmt); isGo && addIdx >= 0 && i > addIdx {
+						addBeforeGo = true
+					}
+					if _, isRet := st.(*ast.ReturnStmt); isRet {
+						nReturns++
+						if i == 0 || src(list[i-1]) != "wg.Wait()" {
+							waitBeforeReturn = false
+						}
 					}
 				}
-			}
-			return true
-		})
+				return true
+			})
+		}
+		walkBlocks(fd.Body)
+		if nReturns == 0 {
+			waitBeforeReturn = false
+		}
+		// the calls made for one connection, by callee name, in source order; a call to a function of
+		// this package is followed into that function (one level), so that an extracted helper does
+		// not hide them
+		names := map[string]bool{"newService": true, "Assigner": true, "Close": true, "Start": true, "Stop": true, "WaitStatus": true, "Finish": true}
+		var collect func(n ast.Node, depth int)
+		collect = func(n ast.Node, depth int) {
+			ast.Inspect(n, func(x ast.Node) bool {
+				call, ok := x.(*ast.CallExpr)
+				if !ok {
+					return true
+				}
+				callee := ""
+				switch f := call.Fun.(type) {
+				case *ast.Ident:
+					callee = f.Name
+				case *ast.SelectorExpr:
+					callee = f.Sel.Name
+				}
+				if id, isIdent := call.Fun.(*ast.Ident); isIdent && depth == 0 {
+					if hd, _ := findFunc(srvp, "", id.Name); hd != nil && hd.Body != nil && id.Name != "Loop" {
+						// arguments first (Go evaluates them before the call), then the helper's body
+						for _, a := range call.Args {
+							collect(a, depth)
+						}
+						collect(hd.Body, depth+1)
+						return false
+					}
+				}
+				if names[callee] && callee != "Close" || (callee == "Close" && strings.HasSuffix(src(call.Fun), "ch.Close")) {
+					if sel, isSel := call.Fun.(*ast.SelectorExpr); !isSel || src(sel.X) != "wg" {
+						// inner calls first: jrpc2.NewServer(...).Start(ch) lists Start once
+						calls = append(calls, leanStr(callee))
+					}
+				}
+				return true
+			})
+		}
+		collect(fd.Body, 0)
 		fmt.Fprintf(&ft, "/-- calls of the per-connection goroutine of `server.Loop`, in source order -/\ndef loopCalls : List String := [%s]\n", strings.Join(calls, ", "))
 		fmt.Fprintf(&ft, "/-- `wg.Add(1)` precedes the `go` statement; `wg.Wait()` precedes Loop's return -/\ndef loopWg : Bool × Bool := (%v, %v)\n\n", addBeforeGo, waitBeforeReturn)
 	}
